@@ -8,9 +8,12 @@ package apiedit
 import (
 	"fmt"
 	"reflect"
+	"sort"
 
 	"github.com/llir/llvm/ir"
 	"github.com/llir/llvm/ir/types"
+
+	"verif/h/ref"
 )
 
 type named interface {
@@ -193,6 +196,11 @@ func RenameTypes(seed uint64, m *ir.Module) int {
 		taken[nn] = true
 		st.SetName(nn)
 		n++
+	}
+	// the list of type definitions is printed in the order of the list, which the parser fills in the natural
+	// order of the names: a program that renames types keeps that order, as the parser would
+	if n > 0 {
+		sort.SliceStable(m.TypeDefs, func(i, j int) bool { return ref.NaturalLess(m.TypeDefs[i].Name(), m.TypeDefs[j].Name()) })
 	}
 	return n
 }
